@@ -2,7 +2,8 @@
    Only statements + `exact lemma` + Print Assumptions. Models: Model/Domain.v, Model/Dataset.v. *)
 From Coq Require Import List Arith ZArith Permutation Sorted.
 Import ListNotations.
-Require Import PGM.Base.Alg PGM.Base.Sums PGM.Base.Qnn PGM.Model.Domain PGM.Model.Dataset PGM.Proofs.DatasetP PGM.Proofs.DomainP.
+Require Import PGM.Base.Alg PGM.Base.Sums PGM.Base.Qnn PGM.Base.PyList PGM.Model.Domain PGM.Model.Dataset PGM.Proofs.DatasetP PGM.Proofs.DomainP.
+Require Import PGM.Gen.Domain_gen PGM.Proofs.DomainGenP.
 
 (* the vector form is the contingency table in row-major domain order: entry for each cell = total weight of the records equal to it *)
 Theorem C15_datavector_is_contingency_table (R : SR) (D : dataset R) : wf_dataset D ->
@@ -59,6 +60,64 @@ Print Assumptions C15_canonical.
 Theorem C15_sort key l : Permutation (sort_by key l) l /\ StronglySorted (fun x y => key x <= key y) (sort_by key l).
 Proof. split. apply sort_by_perm. apply sort_by_sorted. Qed.
 Print Assumptions C15_sort.
+
+(* ---- the definitions GENERATED from src/mbi/domain.py on every run (Gen/Domain_gen.v) ----
+   A generated Domain g is well formed (wf0) when it is what the constructor builds; it represents repr g = zip(attrs, shape).
+   C15_src_is_model: every translated method returns what the hand model (on which all laws above are proved, and which the
+   Dataset / Factor models use) returns; so the laws hold of the source as translated.  Lookups need distinct attribute names
+   (Python's dict keeps the last size of a repeated name, the model the first). *)
+Theorem C15_src_is_model g o l a : wf0 g -> wf0 o -> NoDup (DomainGen.f_attrs g) -> NoDup (DomainGen.f_attrs o) ->
+  option_map repr (DomainGen.project g (inr l)) = project (repr g) l
+  /\ DomainGen.project g (inl a) = DomainGen.project g (inr [a])
+  /\ DomainGen.transpose g (inr l) = DomainGen.project g (inr l)
+  /\ option_map repr (DomainGen.marginalize g l) = marginalize (repr g) l
+  /\ DomainGen.invert g l = Some (invert (repr g) l)
+  /\ DomainGen.axes g l = axes (repr g) l
+  /\ option_map repr (DomainGen.merge g o) = merge (repr g) (repr o)
+  /\ DomainGen.contains g o = Some (contains (repr g) (repr o))
+  /\ DomainGen.size g None = Some (size (repr g))
+  /\ DomainGen.size g (Some (inr l)) = size_of (repr g) l
+  /\ option_map repr (DomainGen.sort g 0) = sort_size (repr g)
+  /\ option_map repr (DomainGen.sort g 1) = sort_name (repr g)
+  /\ DomainGen.canonical g l = Some (canonical (repr g) l)
+  /\ DomainGen.dunder_getitem g a = lookup (repr g) a
+  /\ DomainGen.dunder_eq g o = Some (dom_eqb (repr g) (repr o)).
+Proof. intros W Wo ND NDo. repeat split.
+  - exact (proj1 (gen_project g l W ND)).
+  - exact (proj1 (gen_marginalize g l W ND)).
+  - exact (gen_invert g l W).
+  - exact (gen_axes g l W).
+  - exact (proj1 (gen_merge g o W Wo NDo)).
+  - exact (gen_contains g o W Wo).
+  - exact (gen_size g W).
+  - exact (gen_size_of g l W ND).
+  - exact (gen_sort_size g W ND).
+  - exact (gen_sort_name g W ND).
+  - exact (gen_canonical g l W).
+  - exact (gen_getitem g a W ND).
+  - exact (gen_eq g o W Wo). Qed.
+Print Assumptions C15_src_is_model.
+(* well-formedness is what the constructor establishes and every method preserves; every model domain is represented *)
+Theorem C15_src_wellformed a s g : DomainGen.init a s = Some g -> DomainGen.f_attrs g = a /\ DomainGen.f_shape g = s /\ wf0 g.
+Proof. exact (init_some a s g). Qed.
+Print Assumptions C15_src_wellformed.
+Theorem C15_src_constructor_asserts a s : length a <> length s -> DomainGen.init a s = None.
+Proof. exact (gen_init_assert a s). Qed.
+Print Assumptions C15_src_constructor_asserts.
+Theorem C15_src_represents_every_domain (d : dom) : exists g, DomainGen.init (attrs d) (dshape d) = Some g /\ repr g = d /\ wf0 g.
+Proof. exact (repr_surjective d). Qed.
+Print Assumptions C15_src_represents_every_domain.
+(* laws stated directly on the generated definitions *)
+Theorem C15_src_project_order g l g' : wf0 g -> NoDup (DomainGen.f_attrs g) -> DomainGen.project g (inr l) = Some g' -> wf0 g' /\ DomainGen.f_attrs g' = l.
+Proof. intros W ND. exact (proj2 (gen_project g l W ND) g'). Qed.
+Print Assumptions C15_src_project_order.
+Theorem C15_src_merge_ordered_union g o m : wf0 g -> wf0 o -> NoDup (DomainGen.f_attrs o) -> DomainGen.merge g o = Some m ->
+  wf0 m /\ DomainGen.f_attrs m = DomainGen.f_attrs g ++ filter (fun a => negb (memb a (DomainGen.f_attrs g))) (DomainGen.f_attrs o).
+Proof. intros W Wo ND H. destruct (proj2 (gen_merge g o W Wo ND) m H) as [Wm A]. split; [exact Wm|]. rewrite A. unfold invert. now rewrite attrs_repr. Qed.
+Print Assumptions C15_src_merge_ordered_union.
+Theorem C15_src_sort_how g how : how <> 0 -> how <> 1 -> DomainGen.sort g how = None.
+Proof. exact (gen_sort_other g how). Qed.
+Print Assumptions C15_src_sort_how.
 
 (* non-vacuity: a concrete weighted dataset with a duplicate record, a size-1 attribute and a permuted projection *)
 Example C15_example :
